@@ -7,6 +7,8 @@ import contextlib
 import threading
 
 L_DEFAULT = 2
+GATE = threading.Event()       # Remote.tla's `gate`
+ENTERED = threading.Event()    # a gboom evaluation is inside the handler
 
 
 class Box:
@@ -27,6 +29,14 @@ class Box:
 
   def boom(self):
     raise ValueError(f'boom({self.val})')
+
+  def tmo(self):
+    raise TimeoutError(f'tmo({self.val}): the evaluated code timed out')
+
+  def gboom(self):
+    ENTERED.set()
+    GATE.wait(20)
+    raise ValueError(f'gboom({self.val})')
 
   def __reduce__(self):
     Box.pickled += 1
@@ -97,6 +107,10 @@ def apply_op(obj, op):
     return obj.boom()
   if op == 'nope':
     return obj.nope
+  if op == 'tmo':
+    return obj.tmo()
+  if op == 'gboom':
+    return obj.gboom()
   if op == 'bump':
     return obj.bump()
   if op == 'count':
